@@ -63,14 +63,20 @@ def run(tier):
         for k, it in enumerate(its):
             toks = it.split(" ")
             sched = toks[-1][2:] if toks[-1].startswith("S=") else ""
-            evs = [t for t in toks[:-1] if not t.startswith("LIVE=")]
+            evs = [t for t in toks[:-1] if not (t.startswith("LIVE=") or t.startswith("META="))]
             live = [t for t in toks if t.startswith("LIVE=")]
+            meta = [t for t in toks if t.startswith("META=")]
+            if meta and meta[0] != "META=-1.0":
+                nfail += 1
+                if nfail <= 3:
+                    ctx.violation({"layer": "prog", "cases": [c], "iteration": k, "implementation_answer": it[:800],
+                                   "why": "execution %d starts with a label/tag of the main task left over from an earlier execution (%s: label value, tag present)" % (k, meta[0])})
             last_failed = failed and k == len(its) - 1
-            if live and live[0] != "LIVE=0" and not last_failed:
+            if live and live[0] != "LIVE=0.0" and not last_failed:
                 nfail += 1
                 if nfail <= 3:
                     ctx.violation({"layer": "prog", "cases": [c], "iteration": k, "implementation_answer": it[:1500],
-                                   "why": "thread-local values of execution %d are still alive when the next execution starts (%s)" % (k, live[0])})
+                                   "why": "values of execution %d are still alive when the next execution starts (%s = thread-local values . stack/closure tokens)" % (k, live[0])})
             vals = [t[1:] for t in evs if t.startswith("R")]
             mcases.append("progreplay %s %s %s %s %s" % (ms, sched or "-", ",".join(vals) or "-", objs, bodies))
             minfo.append((c, k, evs, sched, last_failed, len(its)))
